@@ -40,6 +40,8 @@ pub struct ItemModel {
     /// value of the variable when the item was created
     pub initial: i64,
     pub queue_shrunk: bool,
+    /// C25: ticks at which a report is forced whatever the filter says (ResendData)
+    pub forced_ticks: Vec<u64>,
     pub modified: bool,
     /// queue resizes since the last report: (last value sampled before it, old size, old policy, new size, new policy)
     pub mods: Vec<(i64, usize, bool, usize, bool)>,
@@ -372,7 +374,12 @@ impl World {
                     let req: SupportedMessage = CreateMonitoredItemsRequest {
                         request_header: self.c.header(),
                         subscription_id: self.subs[k].id,
-                        timestamps_to_return: TimestampsToReturn::Both,
+                        timestamps_to_return: match s["ttr"].as_str().unwrap_or("both") {
+                            "neither" => TimestampsToReturn::Neither,
+                            "source" => TimestampsToReturn::Source,
+                            "server" => TimestampsToReturn::Server,
+                            _ => TimestampsToReturn::Both,
+                        },
                         items_to_create: Some(vec![MonitoredItemCreateRequest {
                             item_to_monitor: ReadValueId {
                                 node_id: self.vars[var].node.clone(),
@@ -413,6 +420,7 @@ impl World {
                                     delivered: Vec::new(),
                                     initial,
                                     queue_shrunk: false,
+                                    forced_ticks: Vec::new(),
                                     modified: false,
                                     mods: Vec::new(),
                                     last_reported: None,
@@ -427,7 +435,15 @@ impl World {
             }
             "modify_item" => {
                 if let Some((k, j)) = self.pick_item(s) {
-                    let newq = u(s, "q", 1) as u32;
+                    let bad_filter = s["bad_filter"].as_str().map(|x| x.to_string());
+                    // a resize carries the item's own filter; a "bad_filter" request carries one that can never report
+                    let filter_obj = match bad_filter.as_deref() {
+                        Some("percent") => filter_object(&serde_json::json!({"trigger": 1, "deadband_type": 2, "deadband": 10.0})),
+                        Some("negative") => filter_object(&serde_json::json!({"trigger": 1, "deadband_type": 1, "deadband": -1.0})),
+                        Some(_) => filter_object(&serde_json::json!({"trigger": 1, "deadband_type": 7, "deadband": 1.0})),
+                        None => filter_object(&self.subs[k].items[j].filter),
+                    };
+                    let newq = if bad_filter.is_some() && self.regime != "c24" { self.subs[k].items[j].queue as u32 } else { u(s, "q", 1) as u32 };
                     let dis = b(s, "discard_oldest", self.subs[k].items[j].discard_oldest);
                     let req: SupportedMessage = ModifyMonitoredItemsRequest {
                         request_header: self.c.header(),
@@ -438,7 +454,7 @@ impl World {
                             requested_parameters: MonitoringParameters {
                                 client_handle: self.subs[k].items[j].handle,
                                 sampling_interval: self.subs[k].items[j].sampling_ms,
-                                filter: filter_object(&self.subs[k].items[j].filter),
+                                filter: filter_obj,
                                 queue_size: newq,
                                 discard_oldest: dis,
                             },
@@ -451,7 +467,14 @@ impl World {
                         Recv::Msg(_, SupportedMessage::ModifyMonitoredItemsResponse(resp)) => {
                             if let Some(res) = resp.results.as_ref().and_then(|v| v.first()) {
                                 outcome = format!("modify:{}", res.status_code.name());
-                                if res.status_code.is_good() {
+                                if bad_filter.is_some() {
+                                    ctx.fault("modify_with_unusable_filter");
+                                    if res.status_code.is_good() {
+                                        ctx.violate("C25", "never-reports", "modify", format!("ModifyMonitoredItems accepted a {} deadband filter, which can never report a value change", bad_filter.as_deref().unwrap_or("")));
+                                        self.dead = true;
+                                    }
+                                    // refused: nothing about the item may have changed (the model keeps its old size)
+                                } else if res.status_code.is_good() {
                                     let it = &mut self.subs[k].items[j];
                                     if (res.revised_queue_size as usize) < it.queue {
                                         it.queue_shrunk = true;
@@ -477,6 +500,34 @@ impl World {
                     }
                     ctx.log(&format!("modify_item>{}", outcome), "");
                     self.note_conn(&r);
+                }
+            }
+            "resend_data" => {
+                if let Some(k) = self.pick_sub_any(s) {
+                    let ticks = self.ticks;
+                    if self.subs[k].alive && self.subs[k].items.iter().all(|it| !it.alive || ticks >= it.created_tick + 2) {
+                        let req: SupportedMessage = CallRequest {
+                            request_header: self.c.header(),
+                            methods_to_call: Some(vec![CallMethodRequest {
+                                object_id: ObjectId::Server.into(),
+                                method_id: MethodId::Server_ResendData.into(),
+                                input_arguments: Some(vec![Variant::UInt32(self.subs[k].id)]),
+                            }]),
+                        }
+                        .into();
+                        let r = self.c.call(req).await;
+                        let ok = matches!(&r, Recv::Msg(_, SupportedMessage::CallResponse(resp)) if resp.results.as_ref().and_then(|v| v.first()).map(|x| x.status_code.is_good()).unwrap_or(false));
+                        if ok {
+                            ctx.fault("resend_data");
+                            // every item reports its current value at the next sample, and that value
+                            // becomes the one later samples are compared with
+                            for it in self.subs[k].items.iter_mut().filter(|it| it.alive) {
+                                it.forced_ticks.push(ticks + 1);
+                            }
+                        }
+                        ctx.log(&format!("resend_data>{}", l2::recv_kind(&r)), "");
+                        self.note_conn(&r);
+                    }
                 }
             }
             "delete_item" => {
@@ -1004,6 +1055,18 @@ impl World {
                         "",
                         format!("publish response used request {} although {} older request(s) were still queued", id, p),
                     );
+                }
+                // requests that time out are answered in the order in which they were queued, too
+                if !is_good && p != 0 && self.regime == "c21" {
+                    if let SupportedMessage::ServiceFault(f) = m {
+                        if f.response_header.service_result == StatusCode::BadTimeout {
+                            let limit = |o: &Outstanding| o.sent_at_ms + if o.hint > 0 && o.hint < 30_000 { o.hint as u64 } else { 30_000 };
+                            let mine = limit(&self.outstanding[p]);
+                            if self.outstanding.iter().take(p).any(|o| limit(o) <= mine) {
+                                ctx.violate("C21", "not-oldest-first", "timeout", format!("publish request {} was answered BadTimeout although {} older request(s) with the same or an earlier deadline were still queued", id, p));
+                            }
+                        }
+                    }
                 }
                 self.outstanding.remove(p).unwrap()
             }
@@ -1589,7 +1652,9 @@ impl World {
                         continue;
                     }
                     let cur = (*val, *status);
-                    let report = match last {
+                    let forced = it.forced_ticks.contains(tick);
+                    let report = forced
+                        || match last {
                         None => true,
                         Some(l) => {
                             let status_diff = l.1 != cur.1;
